@@ -3227,10 +3227,9 @@ class Mailbox:
 
         Returns a regex anchored with ``^...$``.
 
-        XXX: The resulting regex is case-sensitive but the DB stores
-        INBOX as ``"inbox"``.  A literal ``LIST "" "INBOX"`` pattern
-        will not match.  INBOX matching should be case-insensitive
-        per RFC 3501 §5.1.
+        NOTE: The resulting regex is case-sensitive, as mailbox names are.
+        INBOX is the exception (RFC 3501 §5.1) and the DB stores it as
+        ``"inbox"``: the callers match that one name ignoring case.
         """
         if len(mbox_match) > 0 and mbox_match[0] == "/":
             mbox_match = mbox_match[1:]
@@ -3352,15 +3351,20 @@ class Mailbox:
         # NOTE: We do not present to the IMAP client any folders that
         #       have the flag 'ignored' set on them.
         #
+        # INBOX is case-insensitive: `LIST "" "INBOX"`, "Inbox", "IN*" .. all
+        # have to find the row named "inbox", so that row is matched with the
+        # same regex ignoring case.
+        #
         sub_clause = "AND subscribed=1" if filter_subscribed else ""
         query = (
-            "SELECT name,attributes,subscribed FROM mailboxes WHERE name "
-            f"regexp ? {sub_clause} AND attributes NOT LIKE '%ignored%' "
+            "SELECT name,attributes,subscribed FROM mailboxes WHERE "
+            "(name regexp ? OR (name = 'inbox' AND name regexp ?)) "
+            f"{sub_clause} AND attributes NOT LIKE '%ignored%' "
             "ORDER BY name"
         )
         logger.debug("*** Query: %s", query)
         async for mbox_name, attributes, subscribed in server.db.query(
-            query, (mbox_re,)
+            query, (mbox_re, "(?i)" + mbox_re)
         ):
             attributes = set(attributes.split(","))
             if mbox_name.lower() == "inbox":
@@ -3410,6 +3414,12 @@ class Mailbox:
           normal results) become RECURSIVEMATCH entries with CHILDINFO.
         """
         pattern_re = re.compile(mbox_re)
+        inbox_re = re.compile(mbox_re, re.IGNORECASE)
+
+        def matches(name: str) -> bool:
+            """Does the pattern match `name`. INBOX in any spelling."""
+            name_re = inbox_re if name == "INBOX" else pattern_re
+            return name_re.search(name) is not None
 
         # Phase 1: query all selection-matching folders (no pattern
         # filter).  RECURSIVEMATCH requires a filtering selection option;
@@ -3428,7 +3438,7 @@ class Mailbox:
             if mbox_name.lower() == "inbox":
                 mbox_name = "INBOX"
 
-            if pattern_re.search(mbox_name):
+            if matches(mbox_name):
                 # Matches both selection criteria and pattern.
                 #
                 if subscribed_selection and subscribed:
@@ -3457,10 +3467,7 @@ class Mailbox:
                 ancestor = "/".join(parts[:i])
                 if ancestor.lower() == "inbox":
                     ancestor = "INBOX"
-                if (
-                    pattern_re.search(ancestor)
-                    and ancestor not in yielded_names
-                ):
+                if matches(ancestor) and ancestor not in yielded_names:
                     childinfo_map.setdefault(ancestor, set())
                     if subscribed_selection:
                         childinfo_map[ancestor].add("SUBSCRIBED")
